@@ -218,6 +218,7 @@ func (self *TextCommandConverter) GetAndResetLockCommand(textProtocol ITextProto
 	lockCommand.ExpriedFlag = 0
 	lockCommand.Count = 0
 	lockCommand.Rcount = 0
+	lockCommand.Data = nil
 	return lockCommand
 }
 
@@ -359,6 +360,11 @@ func (self *TextCommandConverter) ConvertTextLockAndUnLockCommand(textProtocol I
 		} else {
 			lockCommand.LockId = textProtocol.GetLockId()
 		}
+	}
+	if lockCommand.Data != nil {
+		lockCommand.Flag |= LOCK_FLAG_CONTAINS_DATA
+	} else {
+		lockCommand.Flag &= ^uint8(LOCK_FLAG_CONTAINS_DATA)
 	}
 	return lockCommand, self.WriteTextLockAndUnLockCommandResult, nil
 }
